@@ -10,6 +10,15 @@ def build(scn, labels=None, order=None):
     import networkx as nx
     n = scn["n"]
     lab = (lambda u: u) if labels is None else (lambda u: labels[u - 1])
+    if scn.get("directed"):
+        G = nx.DiGraph()
+        for u in (order or range(1, n + 1)):
+            G.add_node(lab(u))
+        for u in range(1, n + 1):
+            for v in range(1, n + 1):
+                if u != v and scn["adj"][u - 1][v - 1]:
+                    G.add_edge(lab(u), lab(v))
+        return G
     G = nx.Graph()
     for u in (order or range(1, n + 1)):
         G.add_node(lab(u))
@@ -267,6 +276,8 @@ def fast_sir_scripted(scn, EoN):
     n = scn["n"]
     nodes = list(range(1, n + 1))
     d = scn["delay"]
+    if scn.get("directed"):
+        return None      # edge weights are attributes of undirected contacts here
     for u in nodes:
         for v in nodes:
             if u < v and scn["adj"][u - 1][v - 1] and (d[u - 1][v - 1] >= INF) != (d[v - 1][u - 1] >= INF):
